@@ -202,6 +202,9 @@ def to_garr(table, cls=None, meta=None, coord_dtype=None):
 # cnvkit arrays keep pandas row labels through filtering and slicing: arr[mask] leaves gaps, arr[::k] / arr[k:] leave a
 # (strided / shifted) RangeIndex. Library code that aligns by label or mixes labels with positions is only exposed by such inputs.
 INDEX_SPECS = [None, None, None, [7, 1], [3, 2], [0, 2, "range"], [5, 1, "range"], [1, 3, "range"], "gaps"]
+# "perchrom" (labels restarting at 0 on every chromosome, i.e. repeated labels) is understood by relabel() but not drawn
+# here: segfilters / segmentation assert a unique row index, so only the checks of functions that accept repeated labels
+# (do_call without filters: C01, C02) ask for it explicitly
 
 
 def index_spec():
@@ -216,7 +219,11 @@ def relabel(df, spec):
     n = len(df)
     if spec is None or n == 0:
         return df
-    if spec == "gaps":
+    if spec == "perchrom":
+        # what pd.concat of per-chromosome pieces leaves when nobody renumbers: labels restart at 0 on every chromosome,
+        # so they repeat (seeded change C02m selected rows by label after a boolean mask)
+        df.index = df.groupby("chromosome", sort=False).cumcount().to_numpy() if "chromosome" in df.columns else np.arange(n) % 3
+    elif spec == "gaps":
         # what boolean filtering leaves: increasing labels with irregular gaps
         df.index = np.cumsum(1 + (np.arange(n) * 7 % 3))
     elif len(spec) > 2 and spec[2] == "range":
@@ -231,6 +238,8 @@ def index_label(spec):
         return "index:default"
     if spec == "gaps":
         return "index:gaps"
+    if spec == "perchrom":
+        return "index:repeated-per-chromosome"
     return "index:strided-RangeIndex" if len(spec) > 2 else "index:non-default"
 
 
